@@ -53,7 +53,8 @@ def history_shards(tier, fn, all_scheds=False):
                                                      "addr": "sym" if k == 1 else "fixed"},
                                 "timeout": 900, "twin": "first", "cover": "first"})
     # an interval that is empty (no ballast) while it is looked up, then refilled; triple toggles of one block without lookups
-    for ops, nb, scheds in (("ra", 0, (7, 2)), ("ma", 0, (7, 2)), ("rar", 4, (1,)), ("ara", 4, (1,)), ("ozo", 4, (1,))):
+    for ops, nb, scheds in (("ra", 0, (7, 2)), ("ma", 0, (7, 2)), ("rar", 4, (1,)), ("ara", 4, (1,)), ("ozo", 4, (1,)),
+                            ("ramo", 4, (1,)), ("ramz", 4, (1, 2)), ("maro", 4, (1,))):
         for sched in scheds:
             if all_scheds and sched >= (1 << len(ops)):
                 sched = sched & ((1 << len(ops)) - 1)
